@@ -8,28 +8,28 @@ CHECKS = {
 def add(i, cat, tech, text, note, ref): CHECKS[i]=(cat,tech,text,note,ref)
 
 add("C01","exploration","stateful property-based testing (proptest histories) against a snapshot-isolation reference model + visibility-kernel law checks",
-    "Generated multi-session histories (2-4 sessions, every mutation kind through API/GQL/Cypher/SPARQL, 15 read kinds at every position, 3 interference modes) compared read by read with an SI model; reads whose footprint is touched by a listed MVCC defect are compared modulo the affected entities and attributed to that finding, all others must match exactly. Plus explicit (epoch, tx) probes of VersionChain / LpgStore versioned API against the documented visibility predicate, and gc-preserves-visibility.",
+    "Generated multi-session histories (2-4 sessions, every mutation kind through API/GQL/Cypher/SPARQL, 17 read kinds at every position, 3 interference modes) compared read by read with an SI model; reads whose footprint is touched by a listed MVCC defect are compared modulo the affected entities and attributed to that finding, all others must match exactly. Plus explicit (epoch, tx) probes of VersionChain / LpgStore versioned API against the documented visibility predicate, and gc-preserves-visibility.",
     "Trusts the harness' SI model; edge deletion through query text is excluded (it deletes a node on the pinned tree); only SnapshotIsolation/Serializable levels; single-threaded interleavings (true parallelism belongs to C20).","DESIGN.md §4 C01")
 add("C02","exploration","stateful property-based testing: one generated transaction x 4 endings, full observable-state battery against a reference model",
-    "A generated transaction (creates, SET/REMOVE, labels, DETACH DELETE, MERGE, triples) over a generated graph is ended by commit / rollback / refused commit (conflict forced through the transaction manager hook) / session drop; fresh sessions then read everything through 15 read kinds, index lookups and SPARQL, outside and inside a later transaction; the result must equal the model state before (rollback/refusal/drop) or after (commit) the transaction. Residue of in-place writes after rollback is a listed finding, tolerated only on the entities such a write touched.",
+    "A generated transaction (creates, SET/REMOVE, labels, DETACH DELETE, MERGE, triples) over a generated graph is ended by commit / rollback / refused commit (conflict forced through the transaction manager hook) / session drop; fresh sessions then read everything through 17 read kinds, index lookups and SPARQL, outside and inside a later transaction; the result must equal the model state before (rollback/refusal/drop) or after (commit) the transaction. Residue of in-place writes after rollback is a listed finding, tolerated only on the entities such a write touched.",
     "Shares C01's model and assumptions; the refused commit is provoked via hook H5 because sessions never register writes.","DESIGN.md §4 C02")
 add("C03","exploration","model-based property testing of TransactionManager histories + exhaustive small-scope enumeration + threaded commits",
-    "Random and exhaustively enumerated (<=3 transactions, 2 entities, N steps) begin/write/commit/abort/gc histories against a first-committer-wins model; gc metamorphic relation (history with gc stripped / gc after every step gives the same decisions); epochs unique and increasing; real threads committing behind barriers; session-level sub-check.",
-    "Session layer never registers writes (listed finding); ParallelExecutor not covered.","DESIGN.md §4 C03")
+    "Random and exhaustively enumerated (<=3 transactions, 2 entities, N steps) begin/write/commit/abort/gc histories against a first-committer-wins model; gc metamorphic relation (history with gc stripped / gc after every step gives the same decisions); epochs unique and increasing; real threads committing behind barriers; session-level sub-check; ParallelExecutor batches over a multi-version memory must equal the same requests applied in batch order (no lost or doubled write, no hang).",
+    "Session layer never registers writes (listed finding).","DESIGN.md §4 C03")
 add("C04","exploration","model-based property testing + exhaustive small-scope enumeration with reads and isolation levels; dependency-graph acyclicity",
-    "C03's generator with reads and mixed isolation levels against an SSI backward-validation model; the committed Serializable transactions' ww/wr/rw dependency graph must be acyclic.",
+    "C03's generator with reads and mixed isolation levels against an SSI backward-validation model; the committed Serializable transactions' ww/wr/rw dependency graph must be acyclic; write-skew pairs committed from two real threads (with and without concurrent gc) must never both commit.",
     "Read-only Serializable refusal is a listed finding (its one-line repair contradicts an existing unit test).","DESIGN.md §4 C04")
 add("C05","exploration","model-based property testing of persistent histories (open/close cycles, durability modes, checkpoints, rotations) against an abstract graph model",
-    "Histories over a persistent database (every mutating API call with every value type, statements, wal_checkpoint, sync, 1-5 reopen cycles, all durability modes) and at WalManager level (max_log_size from 64 B, rotations, checkpoints at generated positions); dump(reopened) == model, bit for bit; fresh ids never collide.",
+    "Histories over a persistent database (every mutating API call with every value type, statements, wal_checkpoint, sync, 1-5 reopen cycles, all durability modes) and at WalManager level (max_log_size from 64 B, rotations, checkpoints at generated positions); dump(reopened) == model, bit for bit; fresh ids never collide; values up to 200 KB; a saved copy is reopened too.",
     "Scratch databases live on tmpfs by default (VERIF_TMP); statement mutations are not logged by the engine (listed finding).","DESIGN.md §4 C05")
 add("C06","fault_enumeration","enumerated crash images (every truncation length, checkpoint/rotation step mixes, bit flips, continuation) of generated histories, opened in a child worker process",
     "For each generated history the WAL directory image after every op is recorded; crash images are constructed (every byte length of the tail, stale/partial checkpoint temp file, freshly rotated file, bit flips on framing fields and a stride, crash->reopen->write->close->reopen) and opened in a worker process (RLIMIT_AS, deadline); the recovered dump must be a prefix state at or after the last durable point; torn/flipped records never applied.",
     "Crash model = prefixes of what the process wrote + bit flips + enumerated step mixes; sector reordering and fsync lies are not modelled; exhaustive bit flips only for logs <= 512 B.","DESIGN.md §4 C06")
 add("C08","exploration","differential property-based testing: generated graphs x query ASTs rendered to 4 languages vs an independent reference evaluator; cross-language agreement",
-    "Graphs (0-12 nodes, self-loops, parallel edges, missing/heterogeneous properties) x queries from the core grammar rendered to GQL/Cypher/Gremlin/GraphQL, compared as multisets (sequences on ORDER BY keys; validity predicate under SKIP/LIMIT) with a nested-loop three-valued reference evaluator; known engine defects are recognised by dynamic signatures (the engine's rows must equal the reference evaluated with exactly that defect).",
-    "Trusts the reference evaluator; Int 2 and Float 2.0 are not distinguished in results; Gremlin/GraphQL express only a small fragment of the grammar.","DESIGN.md §4 C08")
+    "Graphs (0-12 nodes, self-loops, parallel edges, missing/heterogeneous properties) x queries from the core grammar (incl. one OPTIONAL MATCH chain with its own WHERE in GQL/Cypher; 80 % of two sub-checks' queries are shaped after what Gremlin and GraphQL can express) rendered to GQL/Cypher/Gremlin/GraphQL, compared as multisets (sequences on ORDER BY keys; validity predicate under SKIP/LIMIT) with a nested-loop three-valued reference evaluator; known engine defects are recognised by dynamic signatures (the engine's rows must equal the reference evaluated with exactly that defect).",
+    "Trusts the reference evaluator; Int 2 and Float 2.0 are not distinguished in results; Gremlin/GraphQL express only a fragment of the grammar (about 70 % / 60 % of the shaped queries, 10 % / 2 % of the full grammar).","DESIGN.md §4 C08")
 add("C11","exploration","metamorphic property-based testing (ternary-logic partitioning, count, DISTINCT, SKIP/LIMIT windows, UNION) in five languages",
-    "Relations between results of related queries on one database: Q = Q∧p ⊎ Q∧¬p ⊎ Q∧(p IS NULL); count = rows; DISTINCT = set of rows; SKIP s LIMIT n = slice of the ordered result (graphs of 2047/2048/2049/4097 nodes cross the chunk boundary); UNION ALL = concatenation.",
+    "Relations between results of related queries on one database: Q = Q∧p ⊎ Q∧¬p ⊎ Q∧(p IS NULL); count = rows; DISTINCT = set of rows; SKIP s LIMIT n = slice of the ordered result (graphs of 2047/2048/2049/4097 nodes cross the chunk boundary; a second window sub-check runs filtered scans over 2049-6500 nodes with bounds around the chunk size, ordered and unordered, returning a property or the node itself); UNION ALL = concatenation.",
     "No reference evaluator: only the relations are asserted; an Err is 'cannot express'.","DESIGN.md §4 C11")
 add("C15","exploration","property-based round-trip testing (proptest) of every codec against identity / naive reference",
     "Generated sequences per codec (boundary lengths, widths 0..=64, extremes) checked for decode∘encode = id, random access = full decode, from_bytes∘to_bytes = id, compressed = uncompressed property reads, succinct structures vs naive rank/select. Exploration: absence is not established.",
@@ -57,7 +57,7 @@ add("C12","exploration","grammar-aware fuzzing of all five front ends in a child
     "Per language: valid skeletons, token-level mutation, every char-boundary truncation (exhaustive), nesting to depth 2000, numeric extremes, arithmetic/SKIP/LIMIT/range templates over extreme operands, non-ASCII/control characters, unterminated openers; parameter maps of every value type; each case against an empty and a small database in a worker: the call must return Ok or Err, never panic, abort, overflow the stack, exhaust memory or hang.",
     "Work that is huge by definition (variable-length bounds > 64 on the cyclic small graph, > 300 chained clauses) is excluded; a hang is 20 CPU-seconds on one request.","DESIGN.md §4 C12")
 add("C13","exploration","model-based property testing of RdfStore histories against a triple set + differential testing of SPARQL against an independent algebra evaluator + TripleRing vs set",
-    "Store histories (insert/remove/clear/transactional ops, object index on/off): all 8 pattern shapes, contains/len/subjects/predicates/objects/find_with_pending equal the set after every step. Generated SPARQL (BGP joins, OPTIONAL, FILTER, UNION, DISTINCT, ORDER/LIMIT/OFFSET, COUNT/GROUP BY, INSERT/DELETE DATA) against a SPARQL 1.1 algebra evaluator on full terms; TripleRing answers = set answers.",
+    "Store histories (insert/remove/clear/transactional ops, object index on/off): all 8 pattern shapes, contains/len/subjects/predicates/objects/find_with_pending equal the set after every step. Generated SPARQL (BGP joins, OPTIONAL, FILTER, UNION, DISTINCT, ORDER/LIMIT/OFFSET, COUNT/GROUP BY, INSERT/DELETE DATA, DELETE/INSERT WHERE) against a SPARQL 1.1 algebra evaluator on full terms; TripleRing answers = set answers.",
     "Result rows are compared on lexical form only (all the engine exposes); FILTER outcomes that are operator-table type errors are not judged.","DESIGN.md §4 C13")
 add("C14","exploration","model-based stateful property testing of LpgStore / ChunkedAdjacency / GrafeoDB histories with a full cross-check battery after every step",
     "Histories of 1-400 ops (with/without backward adjacency, index create/drop, statistics, bursts across the 64-entry chunk, deletes with live edges, re-adds) against an abstract model: label lookups, adjacency both directions, degrees, index vs scan, min/max pruning never hides a match, counts, deleted ids nowhere, validate(); bare ChunkedAdjacency with compaction/freezing against a multiset model.",
@@ -66,7 +66,7 @@ add("C17","exploration","differential property testing of operator chains across
     "Generated tables (0..4200 rows quick, chunk and morsel boundaries, duplicate/NULL keys) x operator chains x {pull, push Pipeline, ParallelPipeline 1-16 workers} x chunk splits x spill thresholds: every configuration equals the reference as a multiset (sequence on sort keys); k-way merge / partial aggregates / distinct sets merged from generated partitions equal their sequential counterparts; spill directory empty after cleanup/drop.",
     "OS-level interleavings inside ParallelPipeline are sampled by repetition (3x), not enumerated; mixed-type sort keys are a listed finding (shared with C16).","DESIGN.md §4 C17")
 add("C20","exploration","schedule-controlled concurrency testing (generated programs + generated schedules at instrumented yield points) with a linearizability oracle; plus free-running threads",
-    "2-3 logical threads x 1-3 generated ops on shared entities of LpgStore / RdfStore / BufferManager run under a harness-owned scheduler (hooks H2/H3: yield points between the critical sections of each operation); every return value and the final state (C14's battery / all RDF pattern shapes / allocation accounting) must be explained by some sequential order of the operations (all orders enumerated). Free mode: real threads on one GrafeoDB: ids unique, acknowledged creations visible, derived structures agree with primary data, commit epochs unique, no panic or deadlock.",
+    "2-3 logical threads x 1-3 generated ops on shared entities of LpgStore / RdfStore / BufferManager run under a harness-owned scheduler (hooks H2/H3: yield points between the critical sections of each operation); every return value and the final state (C14's battery / all RDF pattern shapes / allocation accounting) must be explained by some sequential order of the operations (all orders enumerated). Free mode: real threads on one GrafeoDB: ids unique, acknowledged creations visible, derived structures agree with primary data, commit epochs unique, no panic or deadlock. Every schedule of two logical threads up to a fixed depth is enumerated for generated operation pairs; threads first-use a fresh label / edge type (catalog interning windows are yield points); TransactionManager commits from real threads; free-running component sub-checks (sessions, WAL manager, HNSW, catalog, arena, memory grants, query cache).",
     "Only interleavings at the instrumented yield points are owned by the harness; DETACH DELETE is two store calls and is not treated as one atomic operation.","DESIGN.md §4 C20")
 NOT_BUILT = {}
 
@@ -86,7 +86,7 @@ def main():
      "engines":[{"name":"vcheck","path":"/verif/harness","serves_properties":sorted(CHECKS),"kind_free_text":"Rust binary: proptest TestRunner (fixed seeds, 16 deterministic shards), explicit oracles/reference models, shrinking to replay files, known-finding signatures"}],
      "checks":[],
      "not_applicable":[],
-     "notes":"All checks: `./check <ID>` rebuilds the harness against /repo's working tree first. Exit 0 held / 1 violation / 2 inconclusive (build failure, watchdog). VERIF_SEED selects the PRNG seed. Known findings: /verif/known_findings.json (never written at run time).",
+     "notes":"All checks: `./check <ID>` rebuilds the harness against /repo's working tree first. Exit 0 held / 1 violation / 2 inconclusive (build failure, watchdog). VERIF_SEED selects the PRNG seed. Known findings: /verif/known_findings/<ID>.json (never written at run time).",
     }
     for p in props:
         i=p['id']
